@@ -197,7 +197,7 @@ func subWriterVsZlib() mon.Sub {
 		Name: "writer-vs-zlib", Required: true,
 		N: func(t string) int {
 			if t == "thorough" {
-				return 60000
+				return 240000
 			}
 			return 1500
 		},
@@ -278,7 +278,7 @@ func subZlibVsReader() mon.Sub {
 		Name: "zlib-vs-reader", Required: true,
 		N: func(t string) int {
 			if t == "thorough" {
-				return 60000
+				return 240000
 			}
 			return 1500
 		},
@@ -335,7 +335,7 @@ func subFrames() mon.Sub {
 		Name: "frame-helpers", Required: true,
 		N: func(t string) int {
 			if t == "thorough" {
-				return 8000
+				return 40000
 			}
 			return 600
 		},
@@ -439,7 +439,7 @@ func subTailLogic() mon.Sub {
 		Name: "tail-logic", Required: true,
 		N: func(t string) int {
 			if t == "thorough" {
-				return 40000
+				return 200000
 			}
 			return 3000
 		},
